@@ -185,6 +185,7 @@ def stepLine (d : DSt) (toks : List String) : DSt × String :=
   | "addrace" :: _ => (d, "done")
   | "addburst" :: _ => (d, "done")
   | "sdrace" :: _ => (d, "done")
+  | "cancelrace" :: _ => (d, "done")
   | ["check"] =>
     let ans := match firstBad d.trace with
       | none => "accept"
